@@ -279,3 +279,49 @@ func (r vpConsReactor) String() string                                  { return
 func (r vpConsReactor) SetLogger(log.Logger)                            {}
 
 func VP_C13_Accept() { vpC13Accept() }
+
+// ---------------------------------------------------------------- C13-H2 (part): who may fill a request
+
+// A block for height h is taken only from the peer that was asked for h.  The real BlockPool.AddBlock
+// and bpRequester.setBlock are run on requesters in each of their states (no peer assigned yet /
+// assigned to p1 / already filled); the sender is the assigned peer, another known peer, or a peer
+// the pool has never heard of; anything else than the assigned peer's first answer must be refused and
+// reported.
+func VP_C13_AddBlock() {
+	requests := make(chan BlockRequest, 16)
+	errs := make(chan peerError, 16)
+	pool := NewBlockPool(5, requests, errs)
+	pool.SetLogger(log.NewNopLogger())
+	vp.Stub("(*github.com/tendermint/tendermint/libs/service.BaseService).IsRunning", func() bool { return true })
+	pool.SetPeerRange("p1", 1, 20)
+	pool.SetPeerRange("p2", 1, 20)
+	req := newBPRequester(pool, 5)
+	pool.requesters[5] = req
+	pool.numPending = 1
+	state := vp.Choice("requester-state", 3) // 0 unassigned, 1 assigned to p1, 2 assigned to p1 and already filled
+	held := &types.Block{Header: types.Header{Height: 5, ChainID: "first"}}
+	if state >= 1 {
+		req.peerID = "p1"
+		pool.peers["p1"].incrPending() // as the requester does when it picks the peer
+	}
+	if state == 2 {
+		req.block = held
+	}
+	sender := []p2p.ID{"p1", "p2", "stranger"}[vp.Choice("sender", 3)]
+	blk := &types.Block{Header: types.Header{Height: 5, ChainID: "sent"}}
+	pool.AddBlock(sender, blk, 100)
+	shouldTake := state == 1 && sender == "p1"
+	if shouldTake {
+		vp.Reach("taken")
+		vp.Assert(req.getBlock() == blk, "C13.pool.the-asked-peer's-answer-is-taken")
+		vp.Assert(len(errs) == 0, "C13.pool.the-asked-peer-is-not-reported")
+	} else {
+		vp.Reach("refused")
+		want := (*types.Block)(nil)
+		if state == 2 {
+			want = held
+		}
+		vp.Assert(req.getBlock() == want, "C13.pool.a-block-is-taken-only-from-the-peer-that-was-asked-for-it")
+		vp.Assert(len(errs) == 1, "C13.pool.a-peer-answering-a-request-it-was-not-given-is-reported")
+	}
+}
